@@ -1021,6 +1021,8 @@ func (e *Exec) applyContract(s *State, c *ssa.Call, fn *ssa.Function, con *Contr
 		a.st.Trace = append(a.st.Trace, "call "+con.Func+" replaced by its contract")
 		a.st.Ghost["callret:"+con.target()] = Tuple(a.rets)
 		a.st.Ghost["callarg:"+con.target()] = Tuple(append([]Val{}, args...))
+		prevCalls, _ := a.st.Ghost["callargs:"+con.target()].(Tuple)
+		a.st.Ghost["callargs:"+con.target()] = append(append(Tuple{}, prevCalls...), Tuple(append([]Val{}, args...)))
 		outs = append(outs, Out{St: a.st, Rets: a.rets})
 	}
 	if len(outs) == 0 {
